@@ -369,6 +369,8 @@ class UserManager(BaseManager):
     async def _on_add_privileged_user(self, message: AddPrivilegedUser.Response, connection: ServerConnection):
         user = self.get_user_object(message.username)
         user.privileged = True
+        # User objects are only stored as long as they are referenced
+        self._privileged_users.add(message.username)
 
         await self._event_bus.emit(PrivilegedUserAddedEvent(user))
 
@@ -389,6 +391,11 @@ class UserManager(BaseManager):
 
         user.status = UserStatus(message.status)
         user.privileged = message.privileged
+        # User objects are only stored as long as they are referenced
+        if message.privileged:
+            self._privileged_users.add(message.username)
+        else:
+            self._privileged_users.discard(message.username)
 
         await self._event_bus.emit(
             UserStatusUpdateEvent(
